@@ -264,10 +264,43 @@ fn gen_rules() -> BoxedStrategy<Value> {
     gen::case2(rules::rooted(cfg), c12_data())
 }
 
+
+/// accumulated state: see common::sweep
+fn sweep_item(kind: u64, k: usize) -> (Value, Value) {
+    match kind % 2 {
+        0 => (json!({"missing": [format!("k{}", k), format!("k{}.v", k), "zz"]}), json!({format!("k{}", k): {"v": null}})),
+        _ => (json!({"missing_some": [2, [format!("p{}", k), format!("q{}", k), "a"]]}), json!({"a": 0, format!("q{}", k + (k % 2)): 1})),
+    }
+}
+
+fn check_state_sweep(case: &Value, obs: &mut Obs) -> Result<(), String> {
+    let w = case["w"].as_u64().unwrap_or(1) as usize;
+    let kind = case["kind"].as_u64().unwrap_or(0);
+    sweep(w, &|k| sweep_item(kind, k), obs)?;
+    obs.nt(&format!("sweep kind {} W {}", kind, if w < 64 { "<64" } else if w < 128 { "64-127" } else { "128+" }));
+    Ok(())
+}
+
+fn fixed_state_sweeps() -> Vec<Value> {
+    sweep_cases(2, 160)
+}
+
 pub fn property() -> Property {
     Property {
         id: "C12",
         subs: vec![
+            Sub {
+                name: "state_sweep",
+                about: "accumulated state: for every W in 1..160 and each kind of keyed work of this operator family (distinct key lists for missing and missing_some), W hot items are evaluated twice, then a new item, the hot set again, another new item, and everything in reverse; every call against the reference model - a cache, pool or table with any capacity up to 160 is driven exactly over its boundary.",
+                nontrivial: "every case.",
+                strategy: None,
+                fixed: Some(fixed_state_sweeps),
+                fixed_exhaustive: false,
+                check: check_state_sweep,
+                quick: 0,
+                thorough: 0,
+                small_stack: false,
+            },
             Sub {
                 name: "missing",
                 about: "generated key lists (duplicates, dotted and escaped paths, integer and null keys; literal, first-operand-array, computed with merge, first-operand-array with surplus operands) over data whose members are often null / falsy / empty; model-free oracle: k is missing iff {\"var\":[k,S]} returns the sentinel S; the answer must be those keys in request order; plus the model.",
